@@ -81,7 +81,7 @@ def normalizer_validator(I):
     w = I.w
     which = {"call": True, "msg": True, "md": True, "plan_name_in_md": False, "plan_name_in_msg": False}
     env, re_, srcs, vals, s0 = setup(I, which)
-    case = w.choose(["normalizer", "validator rejects"], "case")
+    case = w.choose(["normalizer", "validator rejects", "normalizer raises"], "case")
     rp = {"replay": "metadata.precedence"}
     if case == "normalizer":
         seen = {}
@@ -105,10 +105,13 @@ def normalizer_validator(I):
     def validator(I_, a, k):
         got["md"] = a[0]
         raise PyRaise(bad)
-    re_.attrs["md_validator"] = native(validator)
+    if case == "validator rejects":
+        re_.attrs["md_validator"] = native(validator)
+    else:
+        re_.attrs["md_normalizer"] = native(validator)      # the normalizer refuses the metadata: the run is not opened either
     had = "scan_id" in re_.md
     r = call_async(I, I.getattr(re_, "_open_run"), MsgVal("open_run", None, (), dict(srcs["msg"]), None))
     unchanged = Eq(re_.md["scan_id"], s0) if had else ("scan_id" not in re_.md)
     w.check(f"{RE}._open_run#ensures[rejecting validator: nothing emitted, no run registered, no scan_id consumed]",
             And(r[0] == "raise" and r[1] is bad and len(env.emitted) == 0 and len(re_._run_bundlers) == 0 and re_._run_start_uids == []
-                and isinstance(got.get("md"), dict), unchanged), rp)
+                and got.get("md") is not None, unchanged), rp)
